@@ -2094,7 +2094,10 @@ class Measurement:
             return NotImplemented
 
         measurand = self.measurand * other.measurand
-        uncertainty = self._join_uncertainties(measurand, other)
+        # d(xy)/dx = y, d(xy)/dy = x
+        uncertainty = self._join_uncertainties(
+            other.measurand.magnitude, other, self.measurand.magnitude
+        )
         return Measurement(measurand, uncertainty)
 
     __rmul__ = __mul__
@@ -2107,25 +2110,25 @@ class Measurement:
             return NotImplemented
 
         measurand = self.measurand / other.measurand
-        uncertainty = self._join_uncertainties(measurand, other)
+        # d(x/y)/dx = 1/y, d(x/y)/dy = -x/y**2
+        uncertainty = self._join_uncertainties(
+            _div(1, other.measurand.magnitude),
+            other,
+            _div(measurand.magnitude, other.measurand.magnitude),
+        )
         return Measurement(measurand, uncertainty)
 
-    def _join_uncertainties(self, measurand: Quantity, other: "Measurement") -> float:
+    def _join_uncertainties(
+        self, this_sensitivity: Numeric, other: "Measurement", other_sensitivity: Numeric
+    ) -> float:
+        """First-order propagation for independent inputs: each uncertainty is scaled
+        by the partial derivative of the result with respect to its measurand.  (The
+        relative form, f*sqrt((sx/x)**2 + (sy/y)**2), divides by the measurands and so
+        cannot handle a measurand of zero.)"""
         return math.sqrt(
-            _mul(
-                _pow(measurand.magnitude, 2),
-                (
-                    _add(
-                        _div(
-                            _pow(self.uncertainty.magnitude, 2),
-                            _pow(self.measurand.magnitude, 2),
-                        ),
-                        _div(
-                            _pow(other.uncertainty.magnitude, 2),
-                            _pow(other.measurand.magnitude, 2),
-                        ),
-                    )
-                ),
+            _add(
+                _pow(_mul(this_sensitivity, self.uncertainty.magnitude), 2),
+                _pow(_mul(other_sensitivity, other.uncertainty.magnitude), 2),
             )
         )
 
